@@ -183,6 +183,8 @@ def gen(tier, rng):
         yield x
     # the handshake message decoder on mutated / truncated / length-corrupted genuine datagrams and on forged fields behind a genuine key header (node level, under catch_unwind)
     yield nodegen.c08_script(rng.fork("node"), "node-handshake-decoder", tier == "thorough")
+    # node information with arbitrary content (unknown parts, mixed address families, entries with and without node id) through the real receive path
+    yield nodegen.announce_script(rng.fork("announce"), "node-announce", 120 if tier == "thorough" else 50)
 
 
 obs_class, nontrivial_key = _nodecommon.with_node(obs_class, nontrivial_key)
